@@ -137,6 +137,10 @@ func CheckFAT(r ReaderAt, start, size int64, kind string) *FATReport {
 	if ts16 == 0 {
 		rep.TotalSectors = ts32
 	}
+	if ts16 != 0 && ts32 != 0 && ts16 != ts32 {
+		// a reader that follows the specification takes the 16-bit field when it is not zero
+		rep.viol("geometry: the 16-bit total sector count says %d, the 32-bit one %d", ts16, ts32)
+	}
 	rep.FATSectors = fs16
 	isFAT32Layout := fs16 == 0 && rep.RootEntries == 0
 	if isFAT32Layout {
